@@ -316,10 +316,64 @@ class PathRecord:
         self.exc_model = None
 
 
+_CLASS_STATE = None
+
+
+def _class_level_containers():
+    """(class, attribute, live container, shallow copy) for every mutable container held by a class of
+    the rv package.  Taken once, before the first path."""
+    import sys
+
+    out = []
+    seen = set()
+    for name, mod in list(sys.modules.items()):
+        if mod is None or not (name == "rv" or name.startswith("rv.")):
+            continue
+        for obj in list(vars(mod).values()):
+            if not isinstance(obj, type) or not str(getattr(obj, "__module__", "")).startswith("rv") or id(obj) in seen:
+                continue
+            seen.add(id(obj))
+            for attr, val in list(vars(obj).items()):
+                if attr.startswith("__"):
+                    continue
+                if isinstance(val, list):
+                    out.append((obj, attr, val, list(val)))
+                elif isinstance(val, dict):
+                    out.append((obj, attr, val, dict(val)))
+                elif isinstance(val, set):
+                    out.append((obj, attr, val, set(val)))
+    return out
+
+
 def _reset_globals():
+    """Every path (and every native replay) starts from the process state a fresh interpreter would
+    have: strict mode on, class-level containers as they were at import.  Without this a path that
+    mutates a class-level default (which is exactly what some defects do) would leak symbolic values
+    into the paths explored after it.  Identity-based comparison: elements may be symbolic."""
+    global _CLASS_STATE
     import rv.errors
 
     rv.errors.RAISE_CONTROLLER_VALUE_ERRORS = True
+    if _CLASS_STATE is None:
+        _CLASS_STATE = _class_level_containers()
+        return
+    for cls, attr, live, saved in _CLASS_STATE:
+        if isinstance(live, list):
+            if len(live) != len(saved) or any(a is not b for a, b in zip(live, saved)):
+                live[:] = saved
+        elif isinstance(live, dict):
+            if len(live) != len(saved) or any(k not in live or live[k] is not v for k, v in saved.items()):
+                live.clear()
+                live.update(saved)
+        else:
+            if len(live) != len(saved) or any(x not in live for x in saved):
+                live.clear()
+                live.update(saved)
+        if vars(cls).get(attr) is not live:
+            try:
+                setattr(cls, attr, live)
+            except (AttributeError, TypeError):
+                pass
 
 
 def explore(body, case, timeout_ms=10000, max_paths=20000, deadline=None, tier="quick", fallback=True):
